@@ -710,7 +710,7 @@ def run(rep, tier):
     rep.use_units(us)
     first = True
     n_err = n_ts = n_div = n_sh = n_carry = n_dim = n_fresh = n_norm = n_cap = n_ld = 0
-    n_aud = [0, 0, 0, 0, 0]
+    n_aud = [0, 0, 0, 0, 0, 0, 0]
     for (l, d, w) in cs:
         u = us[l]
         S, _ = r_err.status_functions(u)
@@ -731,7 +731,9 @@ def run(rep, tier):
             nca_ = cap_arg_rule(rep, u, fn)
             nld_ = low_digit_read_rule(rep, fn)
             na_ = [c01_audit.truncating_update_rule(rep, fn), c01_audit.pending_accumulator_rule(rep, fn),
-                   c01_audit.carry_out_rule(rep, fn), c01_audit.shift_range_rule(rep, fn), c01_audit.remainder_hi_rule(rep, fn)]
+                   c01_audit.carry_out_rule(rep, fn), c01_audit.shift_range_rule(rep, fn), c01_audit.remainder_hi_rule(rep, fn),
+                   c01_audit.capacity_vs_length_rule(rep, fn), c01_audit.tristate_status_rule(rep, fn)]
+            c01_audit.capacity_kept_rule(rep, fn)
             if first:
                 n_aud = [a_ + b_ for a_, b_ in zip(n_aud, na_)]
             if first:
@@ -776,6 +778,10 @@ def run(rep, tier):
     rep.floor("square-root start exponents", c01_audit.sqrt_parity_rule(rep, u0), 3)
     rep.floor("binary inverse domain obligations", c01_audit.mod_inv_domain_rule(rep, u0), 2)
     rep.floor("modular power success returns", c01_audit.reduced_exit_rule(rep, u0), 4)
+    rep.floor("capacity-vs-length room tests", n_aud[5], 2)
+    rep.floor("Legendre status uses", n_aud[6], 2)
+    rep.floor("Euclid inverses (non-default variants)", c01_audit.no_inverse_exit_rule(rep, u0), 2)
+    c03.reduce_rule(rep, u0, "bn_mod_small")
     rep.floor("high-remainder stores on success paths (first configuration is a portable-divide one)", n_aud[4], 3)
     return driver.finish(
         rep, "other",
